@@ -2,6 +2,7 @@
 import glob
 import json
 import os
+import re
 import platform
 import struct
 import sys
@@ -35,8 +36,8 @@ ASSUMPTIONS = [
     'hex code) the oracle has no name and the entry is unjudged; differences recorded in oracle_gaps_C18.json '
     'could not be decided offline and are unjudged as well',
     'the tolerated differences are exactly those of the project\'s compare_output (vendored copy)',
-    'generated location/range lists contain no base-address selection entries: the clone prints them in the layout of readelf 2.41 '
-    '("offset base (base address)"), readelf 2.40 prints "offset ffffffff base (base address)"',
+    'base-address selection entries of .debug_loc/.debug_ranges are compared after normalisation: readelf 2.40 prints "offset ffffffff '
+    'base (base address)", 2.41 and the clone "offset base (base address)"; the base value is compared modulo zero padding',
     'string dumps (-p) are generated from 7-bit bytes without DEL: bytes >= 0x80 depend on the locale and GNU prints DEL as "^" + 0xbf',
     'symbol tables are generated without STT_GNU_IFUNC / STB_GNU_UNIQUE and notes without annobin/stapsdt owners: the clone\'s '
     'description tables have no entries for them',
@@ -150,6 +151,18 @@ def oracle_age_skip(path, option):
     return None
 
 
+_BASE_RE = re.compile(r'^(\s*[0-9a-fA-F]{8}) (?:[fF]{8}|[fF]{16}) ([0-9a-fA-F]+ \(base address\))', re.M)
+_BASE_VAL = re.compile(r'^(\s*[0-9a-fA-F]{8}) 0*([0-9a-fA-F]+) \(base address\)', re.M)
+
+
+def norm_base_lines(text):
+    """Base-address selection entries of .debug_loc/.debug_ranges: readelf 2.40 prints 'offset ffffffff base (base address)',
+    2.41 and the clone 'offset base (base address)'; the base is compared modulo zero padding (a tolerated difference the
+    project's comparator only implements for the last token of a line)."""
+    text = _BASE_RE.sub(r'\1 \2', text)
+    return _BASE_VAL.sub(r'\1 \2 (base address)', text)
+
+
 def run_pair(path, option, timeout=600):
     """-> ('ok' | 'diff' | 'rc' | 'skip', message, (n_lines_gnu, n_lines_clone))"""
     r1 = oracles.run(['readelf', option, path], timeout=timeout, cwd=REPO)
@@ -163,7 +176,10 @@ def run_pair(path, option, timeout=600):
         return 'skip', 'both programs reject the file', n
     if r1[0] != 0 or r2[0] != 0:
         return 'rc', 'return codes differ: readelf %s, clone %s: %s' % (r1[0], r2[0], (r2[2] or r1[2]).strip()[-160:]), n
-    ok, msg = compare_output(r1[1], r2[1])
+    o1, o2 = r1[1], r2[1]
+    if option in ('--debug-dump=loc', '--debug-dump=Ranges'):
+        o1, o2 = norm_base_lines(o1), norm_base_lines(o2)
+    ok, msg = compare_output(o1, o2)
     return ('ok' if ok else 'diff'), msg, n
 
 
@@ -556,6 +572,18 @@ def descr_tables():
     T.append(('DT_FLAGS', '-d', [(k, v) for k, v in E.ENUM_DT_FLAGS.items() if isinstance(v, int)], dflag_builder(30), dynline))
     T.append(('DT_FLAGS_1', '-d', [(k, v) for k, v in E.ENUM_DT_FLAGS_1.items() if isinstance(v, int)], dflag_builder(0x6ffffffb), dynline))
 
+    def combos(items):
+        items = [(k, v) for k, v in items if isinstance(v, int) and v and v & (v - 1) == 0]
+        allv = 0
+        for k, v in items:
+            allv |= v
+        adj = [('%s|%s' % (a[0], b[0]), a[1] | b[1]) for a, b in zip(items, items[1:])]       # neighbours in value order: the print order matters
+        return adj + [('all', allv)]
+    T.append(('DT_FLAGS/combined', '-d', combos(sorted(E.ENUM_DT_FLAGS.items(), key=lambda kv: kv[1])), dflag_builder(30), dynline))
+    T.append(('DT_FLAGS_1/combined', '-d', combos(sorted(E.ENUM_DT_FLAGS_1.items(), key=lambda kv: kv[1])), dflag_builder(0x6ffffffb), dynline))
+    T.append(('DT_MIPS_FLAGS/combined', '-d', combos(sorted(((k, v) for k, v in vars(RH_FLAGS).items() if k.startswith('RHF_')), key=lambda kv: kv[1])),
+              dflag_builder(0x70000005, 8), dynline))
+
     # notes: every note type, ABI-tag OS and GNU property (bit) the clone has a description for, one note per file
     NOTES = []
 
@@ -618,7 +646,6 @@ def descr_tables():
 
 
 # ---------------------------------------------------------------- DWARF description tables
-import re
 DIE_HDR = re.compile(r'^\s*<[0-9a-f]+><[0-9a-f]+>: abbrev number')
 
 
@@ -801,6 +828,38 @@ def dw_tables():
             return info_file(cu), n + 2
         return b
     T.append(('DW_AT/standard', '--debug-dump=info', at_table(True), is_die))
+
+    def at_block_table():
+        # before DWARF 4 an expression is a block: every expression-class attribute in each of the four block forms
+        cu = dwtab.CU(version=3)
+        cu.scope = (0x2e, [(0x03, 0x08, b'fn\0', None), (0x40, 0x0a, bytes([1, 0x9c]), None)])
+        ex = bytes([0x75, 0x70])
+        n = 0
+        for v, k in sorted((v, k) for k, v in DE.ENUM_DW_AT.items() if isinstance(v, int) and 'e' in (dwtab.AT_CLASSES.get(v) or '')):
+            for fname, form, pre in (('block', 0x09, uleb(len(ex))), ('block1', 0x0a, bytes([len(ex)])), ('block2', 0x03, struct.pack('<H', len(ex))),
+                                     ('block4', 0x04, struct.pack('<I', len(ex)))):
+                cu.add(0x34, [(v, form, pre + ex, None)], label='%s.%s' % (k[6:], fname))
+                n += 1
+        return info_file(cu), n + 2
+    T.append(('DW_AT/block-forms', '--debug-dump=info', at_block_table, is_die))
+
+    def types_table():
+        # three type units in .debug_types: signature and type offset are per unit
+        units = abbrevs = b''
+        for i in range(3):
+            cu = dwtab.CU(version=4, root_tag=0x41)
+            cu.root_name = 'tu%d' % i
+            cu.header_extra = struct.pack('<QI', 0x1111111111111111 * (i + 1), 0)
+            cu.add(0x13, [(0x0b, 0x0b, bytes([8 * (i + 1)]), None)], label='S%d' % i)
+            cu.header_extra = struct.pack('<QI', 0x1111111111111111 * (i + 1), cu.header_size() + 1 + len(cu.root_name) + 1)
+            u, ab, offs = cu.build(abbrev_base=len(abbrevs))
+            units += u
+            abbrevs += ab
+        main = dwtab.CU(version=4)
+        main.add(0x34, [(0x49, 0x20, struct.pack('<Q', 0x2222222222222222), None)], label='uses_sig8')
+        mu, mab, _ = main.build(abbrev_base=len(abbrevs))
+        return oracles.wrap_debug({'.debug_info': mu, '.debug_abbrev': abbrevs + mab, '.debug_types': units}, True), 4
+    T.append(('debug_types', '--debug-dump=info', types_table, lambda ln: 'compilation unit @' in ln))
     T.append(('DW_AT/vendor', '--debug-dump=info', at_table(False), is_die))
 
     def enum_table(at, values, name):
@@ -835,7 +894,7 @@ def dw_tables():
                  ('block4', 0x1c, struct.pack('<I', 3) + b'abc'), ('data2', 0x1c, struct.pack('<H', 0x1234)),
                  ('data4', 0x1c, struct.pack('<I', 0x12345678)), ('data8', 0x1c, struct.pack('<Q', 0x123456789abcdef0)),
                  ('string', 0x25, b'inline\0'), ('block', 0x1c, uleb(3) + b'abc'), ('block1', 0x1c, b'\x03abc'),
-                 ('data1', 0x1c, b'\x7f'), ('flag', 0x3f, b'\x01'), ('sdata', 0x1c, sleb(-300)), ('strp', 0x25, struct.pack('<I', 7)),
+                 ('data1', 0x1c, b'\x7f'), ('flag', 0x3f, b'\x01'), ('flag.false', 0x3f, b'\x00'), ('sdata', 0x1c, sleb(-300)), ('strp', 0x25, struct.pack('<I', 7)),
                  ('udata', 0x1c, uleb(300)), ('ref_addr', 0x49, struct.pack('<I', target + LEAD)), ('ref1', 0x49, bytes([target])),
                  ('ref2', 0x49, struct.pack('<H', target)), ('ref4', 0x49, struct.pack('<I', target)),
                  ('ref8', 0x49, struct.pack('<Q', target)), ('ref_udata', 0x49, uleb(target)),
@@ -848,8 +907,8 @@ def dw_tables():
                  ('addrx3', 0x11, b'\x02\0\0'), ('addrx4', 0x11, struct.pack('<I', 2))]
         n = 0
         for name, at, data in cases:
-            code = F.get('DW_FORM_' + name)
-            if not isinstance(code, int) or 'DW_FORM_' + name not in DD._ATTR_DESCRIPTION_MAP:
+            code = F.get('DW_FORM_' + name.split('.')[0])
+            if not isinstance(code, int) or 'DW_FORM_' + name.split('.')[0] not in DD._ATTR_DESCRIPTION_MAP:
                 continue            # only the forms the clone's description table has an entry for
             cu.add(0x34, [(at, code, data, -5 if name == 'implicit_const' else None)], label='form_' + name)
             n += 1
